@@ -76,6 +76,9 @@ func runProp(id, tier, only string, writeEvidence bool) int {
 		}()
 		pc.run(c)
 	}()
+	if tier == "thorough" {
+		thoroughExtra(c, pc)
+	}
 	return c.finish(verifDir(), seed, start, only, writeEvidence)
 }
 
@@ -124,4 +127,40 @@ func main() {
 		fmt.Fprintln(os.Stderr, "unknown command", os.Args[1])
 		os.Exit(2)
 	}
+}
+
+// thoroughExtra re-runs the property's rules on a second load of the program
+// with GOARCH=386 (32-bit int changes uint32→int conversions, make sizes and
+// constant folding) and merges every obligation whose verdict differs from the
+// default-architecture run.
+func thoroughExtra(c *Ctx, pc *propCheck) {
+	p2, err := Load(repoRoot(), "386", true)
+	if err != nil {
+		c.Unk("framework", "load[GOARCH=386]", token.NoPos, "%v", err)
+		return
+	}
+	c2 := newCtx(p2, c.Prop, c.Tier)
+	func() {
+		defer func() {
+			if r := recover(); r != nil {
+				c2.Unk("framework", "analyser-panic[386]", token.NoPos, "%v", r)
+			}
+		}()
+		pc.run(c2)
+	}()
+	differ := 0
+	for _, o := range c2.obs {
+		prev, ok := c.byKey[o.Key()]
+		if ok && prev.Verdict == o.Verdict {
+			continue
+		}
+		differ++
+		o2 := *o
+		o2.Construct += "[GOARCH=386]"
+		c.obs = append(c.obs, &o2)
+		c.byKey[o2.Key()] = &o2
+	}
+	c.evals += c2.evals
+	c.Note("thorough: second load with GOARCH=386 (%d packages, %d functions): %d obligations re-evaluated, %d differ from the default architecture", len(p2.Repo), p2.nFuncs, len(c2.obs), differ)
+	c.extra["goarch_386_obligations"] = len(c2.obs)
 }
